@@ -1,6 +1,7 @@
 package work
 
 import (
+	"bytes"
 	"fmt"
 	"reflect"
 	"strings"
@@ -343,6 +344,38 @@ func c09Case(c *core.Ctx, idx int) {
 		if d := model.Diff(want, out.Elem(), "$"); d != "" {
 			rec.Violation("presence-value", fmt.Sprintf("value under a presence-bearing position changed [%s]: %s\n  type %s\n  value %s\n  got   %s\n  bytes %s", tc.name, d, typeString(typ), model.Show(v), model.Show(out.Elem()), hexHead(data)), caseExtra(tc, v, data))
 			return
+		}
+		// a pointer passed in a struct by value: structs of exactly one pointer, with and without fields
+		// of size zero around it, are what Go may keep in the interface word itself. Presence is that of
+		// the pointer, as when the struct is passed by pointer
+		if !cfg.Repeated(pt, "") {
+			for how := 2; how <= 4; how++ {
+				st := pointerShaped(T, how)
+				if how == 2 {
+					st = reflect.StructOf([]reflect.StructField{{Name: "X", Type: pt, Tag: `plenc:"1"`}})
+				}
+				if cfg.Validate(st, "") != "" {
+					continue
+				}
+				w := reflect.New(st).Elem()
+				w.FieldByName("X").Set(mk(j + how))
+				if model.HasMultiMap(w) {
+					continue // the order of map entries is free
+				}
+				byPtr, err1, pn1 := marshal(tc.p, nil, ptrTo(w))
+				byVal, err2, pn2 := marshal(tc.p, nil, w.Interface())
+				rec.Eval(1)
+				if err1 != nil || err2 != nil || pn1 != "" || pn2 != "" || !bytes.Equal(byPtr, byVal) {
+					rec.Violation("presence", fmt.Sprintf("[%s] a struct holding one pointer (%s) passed to Marshal by value encodes as %x, by pointer as %x (%v %v %s %s)\n  type %s\n  value %s", tc.name, map[bool]string{true: "nil", false: "set"}[w.FieldByName("X").IsNil()], byVal, byPtr, err1, err2, trunc1(pn1), trunc1(pn2), typeString(st), model.Show(w)), nil)
+					return
+				}
+				back := reflect.New(st)
+				if err, pn := unmarshal(tc.p, byVal, back.Interface()); err != nil || pn != "" || back.Elem().FieldByName("X").IsNil() != cfg.Normalise(w, "", true).FieldByName("X").IsNil() {
+					rec.Violation("presence", fmt.Sprintf("[%s] presence of the one pointer of a struct passed to Marshal by value changed over the round trip (%v %s)\n  type %s\n  value %s\n  got   %s\n  bytes %x", tc.name, err, trunc1(pn), typeString(st), model.Show(w), model.Show(back.Elem()), byVal), nil)
+					return
+				}
+				rec.Count("one_pointer_structs_by_value", 1)
+			}
 		}
 		// the same message into the target of the previous iteration (other presence states, other
 		// values still in place): present positions take the message's value, whatever was there
